@@ -241,6 +241,11 @@ def rand_run(rng, fmt, kind, *, calls=None, iters=None, value_classes=None, dist
         # the callback instantiated with the checkpoint's base class (without the engine), as the library's examples do
         s.insert(-1, ['cbbase', 1]); classes.append('callback_on_base_class')
     if rng.random() < 0.3:
+        # rollbacks go through a reference to the checkpoint's base class; checkpoints are read from a stream that cannot seek
+        s.insert(-1, ['rbbase', 1]); classes.append('rollback_through_base_class')
+    if rng.random() < 0.3:
+        s.insert(-1, ['noseek', 1]); classes.append('input_stream_cannot_seek')
+    if rng.random() < 0.3:
         # between operations the checkpoint is copied, moved, assigned (also to itself) and swapped
         s.insert(-1, ['churn', 1]); classes.append('checkpoint_copied_moved_assigned')
     if rng.random() < 0.3:
@@ -262,7 +267,7 @@ def rand_run(rng, fmt, kind, *, calls=None, iters=None, value_classes=None, dist
         s.insert(-1, ['iexc', 1]); classes.append('input_stream_with_exceptions')
     if cb is not None and cb[0] == 'builtin' and rng.random() < 0.4:
         # std::cout as the program left it (precision max_digits10, fixed, showpoint) when the verbose callback prints
-        s.insert(-1, ['coutfmt', rng.choice([256, 256 + 1, 8, 1 + 4, 16 + 256, 3])]); classes.append('cout_format_changed')
+        s.insert(-1, ['coutfmt', rng.choice([256, 256 + 1, 8, 1 + 4, 16 + 256, 3, 512, 512 + 256])]); classes.append('cout_format_changed')
     if cb is not None and cb[0] == 'builtin' and rng.random() < 0.5:
         # one callback object for all the runs of the case (std::ref) instead of a fresh copy per run
         s.insert(-1, ['cbref', 1]); classes.append('callback_object_shared_between_runs')
@@ -1020,7 +1025,7 @@ def gen_C20(c, rng, tier):
                          cb=['builtin', rng.choice([2, 3]), fmt.rtok(0)], ops=[['run', [rng.choice([10, 100, 1000 if n < 8 else 50])] * 2], ['dump'], ['maxdiff']])
             fm = []
             if rng.random() < 0.5:
-                s.insert(-1, ['coutfmt', rng.choice([256, 256 + 1, 8, 1 + 4, 16 + 256, 3])]); fm = ['cout_format_changed']
+                s.insert(-1, ['coutfmt', rng.choice([256, 256 + 1, 8, 1 + 4, 16 + 256, 3, 512, 512 + 256])]); fm = ['cout_format_changed']
             c.add(t, 'run', s, classes=['summary', 'pattern_' + pat, 'channels_%s' % ('1' if n == 1 else 'few' if n < 13 else 'many')] + fm, nontrivial=n >= 2)
 
 def history_ops(rng, calls, with_rollback):
